@@ -370,6 +370,7 @@ func main() {
 
 	// newFileKey split
 	var split [2]int64
+	capLimited := false
 	nSplit := 0
 	var rndLen int64 = -1
 	ast.Inspect(p.fn("newFileKey"), func(n ast.Node) bool {
@@ -385,6 +386,8 @@ func main() {
 				die("newFileKey: importFileKey(rnd[0:a], rnd[a:b], …) shape not recognised")
 			}
 			split = [2]int64{p.evalInt(s1.High), p.evalInt(s2.High)}
+			capLimited = s1.Slice3 && s2.Slice3 && s1.Max != nil && s2.Max != nil &&
+				p.evalInt(s1.Max) == p.evalInt(s1.High) && p.evalInt(s2.Max) == p.evalInt(s2.High)
 			nSplit++
 		}
 		return true
@@ -394,6 +397,8 @@ func main() {
 	}
 	w("/-- filekey.go: newFileKey: rnd[0:<a>], rnd[<a>:<b>] of make([]byte, <b>) -/")
 	w("def randomSplit : Nat × Nat := (%d, %d)", split[0], split[1])
+	w("/-- filekey.go: newFileKey: both slices are full slice expressions rnd[a:b:b] (no spare capacity: an append by the caller's WrapKeyFn cannot reach the neighbouring bytes) -/")
+	w("def fileKeySlicesCapLimited : Bool := %v", capLimited)
 	w("")
 
 	// ---- nonce layout ----
@@ -917,6 +922,94 @@ func main() {
 		w("/-- scheme.go: Encrypt returns an error when `len(wrappedFileKey) == 0`; manifest.go: Validate rejects `len(m.WFK) == 0` -/")
 		w("def encryptRefusesEmptyWrappedKey : Bool := %v", found != "")
 		w("def validateRejectsEmptyWrappedKey : Bool := %v", validateEmpty)
+		w("")
+	}
+
+	// ---- nothing reads the file key bytes after they were handed to WrapKeyFn ----
+	{
+		mentions := map[string]bool{} // functions whose body mentions the field .fileKey
+		callees := map[string][]string{}
+		refs := func(n ast.Node, recv string) []string {
+			var out []string
+			ast.Inspect(n, func(x ast.Node) bool {
+				switch e := x.(type) {
+				case *ast.SelectorExpr:
+					if id, ok := e.X.(*ast.Ident); ok && (id.Name == recv || id.Name == "fk" || id.Name == "k") {
+						out = append(out, "fileKey."+e.Sel.Name)
+					}
+				case *ast.Ident:
+					out = append(out, e.Name)
+				}
+				return true
+			})
+			return out
+		}
+		for name, fd := range p.funcs {
+			if fd.Body == nil {
+				continue
+			}
+			ast.Inspect(fd.Body, func(x ast.Node) bool {
+				if se, ok := x.(*ast.SelectorExpr); ok && se.Sel.Name == "fileKey" {
+					mentions[name] = true
+				}
+				return true
+			})
+			recv := ""
+			if fd.Recv != nil && len(fd.Recv.List) == 1 && len(fd.Recv.List[0].Names) == 1 {
+				recv = fd.Recv.List[0].Names[0].Name
+			}
+			callees[name] = refs(fd.Body, recv)
+		}
+		body := p.fn("Encrypt").Body.List
+		at := -1
+		for i, st := range body {
+			calls(st, func(c *ast.CallExpr) {
+				if show(c.Fun) == "opts.WrapKeyFn" {
+					at = i
+				}
+			})
+		}
+		if at < 0 {
+			die("Encrypt: call of opts.WrapKeyFn not found")
+		}
+		reached := map[string]bool{}
+		var todo []string
+		direct := false
+		for _, st := range body[at+1:] {
+			ast.Inspect(st, func(x ast.Node) bool {
+				if se, ok := x.(*ast.SelectorExpr); ok && (se.Sel.Name == "fileKey" || se.Sel.Name == "GetFileKey") {
+					direct = true
+				}
+				return true
+			})
+			todo = append(todo, refs(st, "")...)
+		}
+		for len(todo) > 0 {
+			n := todo[0]
+			todo = todo[1:]
+			if reached[n] {
+				continue
+			}
+			if _, ok := p.funcs[n]; !ok {
+				continue
+			}
+			reached[n] = true
+			todo = append(todo, callees[n]...)
+		}
+		var readers []string
+		if direct {
+			readers = append(readers, "Encrypt")
+		}
+		for n := range reached {
+			if mentions[n] {
+				readers = append(readers, n)
+			}
+		}
+		sort.Strings(readers)
+		w("/-- scheme.go/filekey.go: functions reachable from the statements of Encrypt AFTER the `opts.WrapKeyFn(fk.GetFileKey(), …)` call")
+		w("    that mention the field `fileKey` (the bytes handed to the caller's callback): must be none — the header and payload keys")
+		w("    are derived before the call, so a WrapKeyFn that wipes or wraps its argument in place cannot change the document -/")
+		w("def fileKeyReadersAfterWrap : List String := %s", ql(readers))
 		w("")
 	}
 
